@@ -13,8 +13,8 @@ ASSUMPTIONS = ["reference vf/ref/ec.py, self-tested against published RFC 6979 s
 NSHARDS = {"quick": 32, "thorough": 64}
 BUDGET_S = {"quick": 200, "thorough": 1800}
 MIN_HITS = {
-    'quick': {"mode_det": 2560, "mode_k": 416, "mode_rand": 416, "mode_digest": 416, "mode_msg": 420, "reverse_k": 1048, "edge_key": 1499, "ecdh": 992, "neg_verify": 23288},
-    'thorough': {"mode_det": 92160, "mode_k": 23040, "mode_rand": 23040, "mode_digest": 23040, "mode_msg": 23040, "reverse_k": 57660, "edge_key": 65016, "ecdh": 23040, "neg_verify": 506880},
+    'quick': {"mode_det": 2560, "mode_k": 456, "mode_rand": 416, "mode_digest": 416, "mode_msg": 420, "reverse_k": 1048, "edge_key": 1499, "ecdh": 992, "neg_verify": 23528},
+    'thorough': {"mode_det": 138086, "mode_k": 23040, "mode_rand": 23040, "mode_digest": 23040, "mode_msg": 23078, "reverse_k": 57793, "edge_key": 79348, "ecdh": 53452, "neg_verify": 1266508},
 }
 EDGE = [1, 2, 3, (ec.N - 1) // 2, (ec.N + 1) // 2, ec.N - 2, ec.N - 1]
 
@@ -70,6 +70,19 @@ def cases(ctx):
             for i_ in idxs:
                 yield {"k": "sign", "key": "%064x" % xs, "compressed": True, "msg": (b"nonce-search-%d" % i_).hex(), "mode": "det", "hash": hsh, "reverse_k": rev, "rare_nonce": True}
         yield {"k": "sign", "key": "%064x" % xs, "compressed": True, "msg": (b"nonce-search-%d" % 191555).hex(), "mode": "msg", "hash": "sha256", "rare_nonce": True}
+    # explicit-nonce signatures whose s is EXACTLY (n-1)/2 (the largest low-S value) or (n+1)/2 before normalisation: the private key is
+    # solved for, d = (s*k - z)/r, for a chosen nonce and message
+    if ctx.shard % 4 == 3 or ctx.tier == "thorough":
+        for target in ((ec.N - 1) // 2, (ec.N + 1) // 2, (ec.N - 1) // 2 - 1, 1, ec.N - 1):
+            for hsh in ("sha256", "sha256d"):
+                kk = rkey(r)
+                mm = gen.rbytes(r, 20)
+                z_ = int.from_bytes(digest_of(hsh, mm), "big") % ec.N
+                r_ = ec.mul_g(kk)[0] % ec.N
+                d_ = (target * kk - z_) * ec.inv(r_, ec.N) % ec.N
+                if d_ == 0:
+                    continue
+                yield {"k": "sign", "key": "%064x" % d_, "compressed": True, "msg": mm.hex(), "mode": "k", "hash": hsh, "nonce": "%064x" % kk, "s_target": True}
     # ECDH against crafted peer points (not derived from a private key): x just below p (>= the group order n), tiny x (leading zero
     # bytes in the secret), combined with private keys 1 / n-1 (the secret is then the peer's own x) and ordinary keys
     if ctx.shard % 4 == 0 or ctx.tier == "thorough":
@@ -151,6 +164,8 @@ def judge(ctx, case):
     ctx.hit("mode_" + mode)
     if case.get("twin"):
         ctx.hit("neighbour_sequence")
+    if case.get("s_target"):
+        ctx.hit("s_on_the_low_s_boundary")
     if case.get("rare_nonce"):
         ctx.hit("rfc6979_nonce_with_rare_shape")
     ctx.nontrivial()
